@@ -390,7 +390,7 @@ def gen_cylinder_partition(rng):
     if rng.random() < 0.5:
         obs += special_cyl_observers(rng, re_, pe, ze, margin)
     phishift = 0.0
-    if kind in ("segment", "hollow") and rng.random() < 0.2:
+    if kind == "segment" and rng.random() < 0.25:
         phishift = 360.0 * rng.choice([-2, -1, 1, 2])     # the same body: section angles are periodic
     return {"family": "cylinder_partition", "kind": kind, "r": re_, "phi": pe, "z": ze, "pol": gen_pol(rng),
             "phishift": phishift,
